@@ -1,0 +1,33 @@
+// Copyright 2025 Democratized Data Foundation
+//
+// Use of this software is governed by the Business Source License
+// included in the file licenses/BSL.txt.
+//
+// As of the Change Date specified in that file, in accordance with
+// the Business Source License, use of this software will be governed
+// by the Apache License, Version 2.0, included in the file
+// licenses/APL.txt.
+
+//go:build !verif
+
+package net
+
+import (
+	"context"
+
+	"github.com/ipfs/boxo/blockservice"
+	"github.com/libp2p/go-libp2p/core/host"
+	"github.com/libp2p/go-libp2p/core/peer"
+
+	"github.com/sourcenetwork/defradb/event"
+)
+
+// simEnabled is true only in builds tagged `verif` (deterministic simulation harness).
+// With the tag off every hook below is dead code.
+const simEnabled = false
+
+func simActive() bool                                                       { return false }
+func simHostReady(h host.Host)                                              {}
+func simPushLog(s *server, evt event.Update, pid peer.ID) error            { return nil }
+func simBlockService(p *Peer, bs blockservice.BlockService) blockservice.BlockService { return bs }
+func simPublish(ctx context.Context, s *server, topic string, data []byte) error { return nil }
